@@ -249,7 +249,7 @@ func TestC19(t *testing.T) {
 	r.Extra["reversal_hop_bound"] = bound
 	r.Sample(map[string]any{"reversal_shape": shapes[len(shapes)/2], "pointers": "all in-range"})
 	r.Outcome("reversal-ok")
-	r.Assumptions = []string{"hop/info field contents come from 2 fixed filler patterns (counter bytes, inverted counter)",
+	r.Assumptions = []string{"hop/info field contents come from 2 fixed filler patterns (counter bytes, inverted counter); the flag bytes (ConsDir/Peer, router alerts) follow 2 patterns that differ from field to field within a path",
 		"predicates for pointers outside the path (CurrHF >= NumHops) are not constrained beyond IncPath failing"}
 	r.Finish(3)
 }
@@ -267,14 +267,22 @@ func buildPath(m metaSpec, filler int) []byte {
 		}
 		b[i] = v
 	}
+	// the flag bytes vary from field to field within one path (field offsets are multiples of 4, so the byte filler
+	// alone would give every hop field of a path the same flags)
 	for i := 0; i < ninf; i++ {
 		o := 4 + 8*i
-		b[o] &= 0x03 // only the defined flag bits (P, C)
-		b[o+1] = 0   // RSV
+		b[o] = byte(i) & 0x03 // only the defined flag bits (P, C)
+		if filler == 1 {
+			b[o] = byte(3-i) & 0x03
+		}
+		b[o+1] = 0 // RSV
 	}
 	for i := 0; i < n; i++ {
 		o := 4 + 8*ninf + 12*i
-		b[o] &= 0x03 // only the defined flag bits (I, E)
+		b[o] = byte(i) & 0x03 // only the defined flag bits (I, E): router alerts differ from hop to hop
+		if filler == 1 {
+			b[o] = byte(3*i+1) & 0x03
+		}
 	}
 	return b
 }
